@@ -416,12 +416,25 @@ theorem pget_set_true (P : List Bool) (k j : ℕ) (hk : k < P.length) :
   · subst h; simp [List.getElem?_set_self hk]
   · rw [List.getElem?_set_ne (Ne.symm h)]; simp [h]
 
-/-- the certificate a main-exit result carries: a passive mask `P` with `d > tol` and zero gradient on
-    it, `d = 0` and dual slack `≤ tol` off it -/
+/-- the certificate a returned vector carries: a passive mask `P` with `d > tol` and zero gradient on
+    it, `d = 0` off it, and — when the loop was left through its main exit — dual slack `≤ tol` off it -/
+def CertifiedEx (n : ℕ) (A : List (List α)) (b d : List α) (tol : α) (ex : Exit) : Prop :=
+  d.length = n ∧ ∃ P : List Bool, P.length = n
+    ∧ (∀ i, i < n → pget P i = true → tol < vget d i ∧ vget (matVec A d) i = vget b i)
+    ∧ (∀ i, i < n → pget P i = false →
+        vget d i = 0 ∧ (ex = .main → vget b i - vget (matVec A d) i ≤ tol))
+
+/-- the main-exit certificate -/
 def Certified (n : ℕ) (A : List (List α)) (b d : List α) (tol : α) : Prop :=
   d.length = n ∧ ∃ P : List Bool, P.length = n
     ∧ (∀ i, i < n → pget P i = true → tol < vget d i ∧ vget (matVec A d) i = vget b i)
     ∧ (∀ i, i < n → pget P i = false → vget d i = 0 ∧ vget b i - vget (matVec A d) i ≤ tol)
+
+omit [IsStrictOrderedRing α] in
+theorem CertifiedEx.main (n : ℕ) (A : List (List α)) (b d : List α) (tol : α)
+    (h : CertifiedEx n A b d tol .main) : Certified n A b d tol := by
+  obtain ⟨h1, P, h2, h3, h4⟩ := h
+  exact ⟨h1, P, h2, h3, fun i hi hp => ⟨(h4 i hi hp).1, (h4 i hi hp).2 rfl⟩⟩
 
 /-- invariant at the head of the outer `while` -/
 structure OInv (n : ℕ) (A : List (List α)) (b : List α) (tol : α) (st : St α) : Prop where
@@ -431,14 +444,14 @@ structure OInv (n : ℕ) (A : List (List α)) (b : List α) (tol : α) (st : St 
   hw : st.w = vsub b (matVec A st.s)
 
 include hc hA hrow in
-theorem outerLoop_main (tol : α) (htol : 0 ≤ tol) (maxIter : ℕ) (hb : b.length = n) :
-    ∀ (fuel : ℕ) (st : St α) (d : List α) (lc lc2 : ℕ), OInv n A b tol st →
-      outerLoop solve A b tol maxIter fuel st = .ok d .main lc lc2 → Certified n A b d tol := by
+theorem outerLoop_cert (tol : α) (htol : 0 ≤ tol) (maxIter : ℕ) (hb : b.length = n) :
+    ∀ (fuel : ℕ) (st : St α) (d : List α) (ex : Exit) (lc lc2 : ℕ), OInv n A b tol st →
+      outerLoop solve A b tol maxIter fuel st = .ok d ex lc lc2 → CertifiedEx n A b d tol ex := by
   intro fuel
   induction fuel with
-  | zero => intro st d lc lc2 _ h; simp [outerLoop] at h
+  | zero => intro st d ex lc lc2 _ h; simp [outerLoop] at h
   | succ fuel ih =>
-    intro st d lc lc2 ho h
+    intro st d ex lc lc2 ho h
     have hinv := ho.inv
     have hwl : st.w.length = n := by
       rw [ho.hw, vsub_length, matVec_length, hA, hb, Nat.min_self]
@@ -510,8 +523,11 @@ theorem outerLoop_main (tol : α) (htol : 0 ≤ tol) (maxIter : ℕ) (hb : b.len
           split at h
           · simp at h
           · split at h
-            · simp at h
-            · refine ih _ d lc lc2 ?_ h
+            · cases h
+              refine ⟨hinv2.hs, st2.P, hinv2.hP, fun i hi hp => ?_, fun i hi hp => ?_⟩
+              · exact ⟨hpos2 i hi hp, hinv2.solves i ((hinv2.sync i hi).mp hp)⟩
+              · exact ⟨hinv2.off i hi hp, fun hne => by cases hne⟩
+            · refine ih _ d ex lc lc2 ?_ h
               exact ⟨⟨hinv2.hP, hinv2.hs, hinv2.hs, hinv2.sync, hinv2.nodup, hinv2.range, hinv2.off,
                 hinv2.solves⟩, hpos2, rfl, rfl⟩
     · rename_i hcond
@@ -522,7 +538,7 @@ theorem outerLoop_main (tol : α) (htol : 0 ≤ tol) (maxIter : ℕ) (hb : b.len
         exact ⟨ho.pos i hi hp, hinv.solves i ((hinv.sync i hi).mp hp)⟩
       · intro i hi hp
         rw [ho.hds]
-        refine ⟨hinv.off i hi hp, ?_⟩
+        refine ⟨hinv.off i hi hp, fun _ => ?_⟩
         have := anyActiveAbove_false n st.w st.P tol hwl hinv.hP (by simpa using hcond) i hi hp
         rw [ho.hw, vget_vsub b _ i (hb ▸ hi) (by rw [matVec_length, hA]; exact hi)] at this
         exact this
@@ -610,17 +626,26 @@ theorem initState_inv (tol : α) (pInit : Option (List ℕ))
       · cases h; exact hcold
 
 include hc hA hrow in
-/-- `fnnls_cholesky` (cold or warm start): a result returned through the main exit is certified. -/
-theorem fnnls_main_certified (tol : α) (htol : 0 ≤ tol) (maxIter : ℕ) (hb : b.length = n)
+/-- `fnnls_cholesky` (cold or warm start): every returned vector is certified (primal part for any exit,
+    dual part for the main exit). -/
+theorem fnnls_certified (tol : α) (htol : 0 ≤ tol) (maxIter : ℕ) (hb : b.length = n)
     (pInit : Option (List ℕ)) (hp : ∀ idx, pInit = some idx → idx.Nodup ∧ ∀ i, i ∈ idx → i < n)
-    (d : List α) (lc lc2 : ℕ) (h : fnnls solve A b tol maxIter pInit = .ok d .main lc lc2) :
-    Certified n A b d tol := by
+    (d : List α) (ex : Exit) (lc lc2 : ℕ) (h : fnnls solve A b tol maxIter pInit = .ok d ex lc lc2) :
+    CertifiedEx n A b d tol ex := by
   unfold fnnls at h
   split at h
   · simp at h
   · rename_i st hst
-    exact outerLoop_main solve hc n A b hA hrow tol htol maxIter hb _ st d lc lc2
+    exact outerLoop_cert solve hc n A b hA hrow tol htol maxIter hb _ st d ex lc lc2
       (initState_inv solve hc n A b hA hrow tol pInit hp st hst) h
+
+include hc hA hrow in
+theorem fnnls_main_certified (tol : α) (htol : 0 ≤ tol) (maxIter : ℕ) (hb : b.length = n)
+    (pInit : Option (List ℕ)) (hp : ∀ idx, pInit = some idx → idx.Nodup ∧ ∀ i, i ∈ idx → i < n)
+    (d : List α) (lc lc2 : ℕ) (h : fnnls solve A b tol maxIter pInit = .ok d .main lc lc2) :
+    Certified n A b d tol :=
+  CertifiedEx.main n A b d tol
+    (fnnls_certified solve hc n A b hA hrow tol htol maxIter hb pInit hp d .main lc lc2 h)
 
 omit [IsStrictOrderedRing α] in
 /-- a certified result satisfies the KKT conditions with slack `tol` -/
